@@ -156,8 +156,11 @@ def shard_sweep(shard):
 # ---------------------------------------------------------------------------
 # (b) E1 robustness, (c) shapes, (d) sources share one judge
 
-def robust_case(sid, flags, text, probe, via='parse_buf', pre=(), fork=False, horizon=0, quiet=False):
+def robust_case(sid, flags, text, probe, via='parse_buf', pre=(), fork=False, horizon=0, quiet=False, path=False):
     lines = list(pre) + ['init A %s %d' % (sid, flags)]
+    if path:
+        # a search path is set: every section borrows the pointer, whoever frees a section must not free the list
+        lines += ['addpath A ' + enc(b'/nonexistent/a'), 'addpath A ' + enc(b'/nonexistent/b')]
     if quiet:
         lines.append('cb_quiet 1')
     lines.append('%s A %s' % (via, enc(text)))
@@ -227,7 +230,7 @@ def shard_e1(shard):
     buf = []
 
     def flush():
-        cases = [robust_case(sid, flags, trace.text_of(n.words), probe, quiet=True) for n in buf]
+        cases = [robust_case(sid, flags, trace.text_of(n.words), probe, quiet=True, path=True) for n in buf]
         for c, r, n in zip(cases, drv.run(cases), buf):
             judge_robust(st, sid, c, r, probe)
             st.transitions += 1
@@ -364,12 +367,12 @@ def shard_shapes(shard):
             break
         hz = 20 + n // 2000
         for via in ('parse_buf', 'parse_fp'):
-            c = robust_case('KS', flags, text, None, via=via, fork=True, horizon=hz, quiet=True,
+            c = robust_case('KS', flags, text, None, via=via, fork=True, horizon=hz, quiet=True, path=(via == 'parse_buf'),
                             pre=['env %s %s' % (enc(b'V'), enc(b'val'))])
             r = drv.run([c])[0]
             if r.status == 'hang':
                 # re-run alone with a 6x longer limit before calling it a hang
-                c2 = robust_case('KS', flags, text, None, via=via, fork=True, horizon=hz * 6, quiet=True,
+                c2 = robust_case('KS', flags, text, None, via=via, fork=True, horizon=hz * 6, quiet=True, path=(via == 'parse_buf'),
                                  pre=['env %s %s' % (enc(b'V'), enc(b'val'))])
                 r = drv.run([c2])[0]
             # keep the replay script small: shapes are regenerated from (name, n)
